@@ -418,6 +418,36 @@ pub fn gen_map(rng: &mut Rng, sh: &Shape) -> MapText {
     m
 }
 
+/// Moves every object from index `from` on (start and end times) by `delta` ms: a long break.
+pub fn shift_times(m: &mut MapText, from: usize, delta: f64) {
+    for l in m.objects.iter_mut().skip(from) {
+        let mut f: Vec<String> = l.split(',').map(str::to_owned).collect();
+        if f.len() < 4 {
+            continue;
+        }
+        if let Ok(t) = f[2].parse::<f64>() {
+            f[2] = format!("{}", t + delta);
+        }
+        if f.len() > 5 {
+            if let Ok(ty) = f[3].parse::<u32>() {
+                if ty & 8 != 0 {
+                    if let Ok(e) = f[5].parse::<f64>() {
+                        f[5] = format!("{}", e + delta);
+                    }
+                } else if ty & 128 != 0 {
+                    let (e, rest) = f[5]
+                        .split_once(':')
+                        .map_or((f[5].clone(), String::new()), |(a, b)| (a.to_owned(), b.to_owned()));
+                    if let Ok(e) = e.parse::<f64>() {
+                        f[5] = format!("{}:{}", e + delta, rest);
+                    }
+                }
+            }
+        }
+        *l = f.join(",");
+    }
+}
+
 pub const REAL_MAPS: [(&str, usize); 4] = [
     ("2785319.osu", 0),
     ("1028484.osu", 1),
